@@ -134,6 +134,7 @@ func NewEnvManager(tm *task.Manager, incomingEventCh chan event.Event) *Manager 
 
 					if ok {
 						thisEnvCh <- typedEvent
+						verifhook.Point("envman.released.delivered", "env", typedEvent.GetEnvironmentId().String())
 
 						instance.mu.Lock()
 						close(thisEnvCh)
